@@ -5,7 +5,7 @@ use crate::models::*;
 use cgt_money::FxCache;
 use chrono::NaiveDate;
 use rust_decimal::Decimal;
-use std::collections::HashMap;
+use std::collections::{BTreeMap, HashMap};
 
 /// Calculate CGT report.
 ///
@@ -138,8 +138,9 @@ fn build_all_tax_year_summaries(
     dividend_aggregates: &HashMap<u16, DividendAggregate>,
     config: &Config,
 ) -> Result<Vec<TaxYearSummary>, CgtError> {
-    // Group matches by tax year
-    let mut matches_by_year: HashMap<u16, Vec<MatchResult>> = HashMap::new();
+    // Group matches by tax year (ordered, so that an unsupported year is reported
+    // deterministically: always the earliest one)
+    let mut matches_by_year: BTreeMap<u16, Vec<MatchResult>> = BTreeMap::new();
 
     for m in match_results {
         let tax_period = TaxPeriod::from_date(m.disposal_date)?;
